@@ -774,6 +774,15 @@ LEGS = [
     _leg("t3t", tc.t3t_desc("t3t"), 1500, 30000),
     _leg("t3e", tc.t3t_desc("t3e"), 1200, 20000),
     _leg("t4t", tc.t4t_desc(), 1500, 30000),
+    Leg("history-sectors", run=run_history,
+        gen=lambda tier: tc.sector_hist(), quick=1200, thorough=20000,
+        shards_quick=8, shards_thorough=16, nt_floor=0.05,
+        rule="histories as in leg history on Type 2 Tags of more than one "
+             "sector (layouts of t2t-sectors), 2..5 operations that are "
+             "mostly assignments reaching beyond the first sector, with "
+             "communication faults or the tag refusing a command (NAK, "
+             "halted afterwards) anywhere in an operation; same judge and "
+             "non-trivial rule as history."),
     Leg("history", run=run_history,
         gen=lambda tier: st.fixed_dictionaries({
             "tag": tc.hist_desc(), "old": tc.hist_len(False),
